@@ -24,6 +24,17 @@ Implementation side (real joblib from VERIF_REPO, /venv/bin/python, no numpy):
                 and recursive references, sizes around 8 KiB / 64 KiB / 1 MiB, 1000-item batches) x protocols
                 0-5 x every available compressor x target kinds; the file is RENAMED to another extension
                 before loading. Oracle: canon(load(...)) == canon(x) (values, types, order, identity structure).
+ (e) histories: SEQUENCES of dump / load operations in ONE process (harness/c03_hist.py, a fresh interpreter per
+                history) with the state of the process changing in between: module globals re-bound (the class
+                statement run again in the same module object and in `__main__`, an edited file + importlib.reload,
+                del sys.modules + import, the sys.modules entry replaced, attribute assignment; classes with a
+                class-checking __eq__, dataclasses, __slots__, namedtuples, enums, nested classes, functions pickled
+                by reference), compressors registered / re-registered with `register_compressor` (magic numbers
+                longer than any built-in one), protocols 0-5, the same file name rewritten with another compressor,
+                failed dumps in between. Oracle (no model): every load must agree with `pickle.loads(pickle.dumps(x))`
+                evaluated AT THE SAME INSTANT — `type(a) is type(b)` at every node, values, globals by identity,
+                sharing. Tie: the histories without registrations are replayed by the model (`hist`: `hreplies
+                histEnv`), which predicts, per load, which dump comes back and under WHICH binding of its class.
 """
 
 from __future__ import annotations
@@ -64,6 +75,11 @@ REQUIRED_THEOREMS = [
     "C03.sniff_peekless_rewinds",
     "C03.load_peekless_from_start",
     "C03.load_peekless_without_rewinding",
+    "C03.history_frame",
+    "C03.load_history_independent",
+    "C03.load_after_history",
+    "C03.roundtrip_in_history",
+    "C03.old_file_follows_current_bindings",
 ]
 TRUSTED_EXTRA = [
     "parameters of C03.roundtrip (modelled, not verified; laws C03.Laws): CPython's pickle._Pickler/_Unpickler "
@@ -75,6 +91,10 @@ TRUSTED_EXTRA = [
     "lz4 is not installed here: the lz4 entry is exercised only through its rejections",
     "`compat` files (ZF prefix, joblib < 0.10) are outside the model (load_compatibility)",
     "classification of Python values into the model's CompressArg/Target (harness/props/c03.py: arg_token, target_token)",
+    "histories: `envOf` (what CPython's pickle does under given bindings of the module globals) is a parameter; that "
+    "joblib.dump/load keep no state between calls is what the history stream tests (every load against pickle.loads "
+    "at the same instant), the model has no such state by construction; `register_compressor` is outside the model "
+    "(its tables are constants regenerated per run) and is exercised by the oracle only",
 ]
 
 warnings.simplefilter("ignore")
@@ -1068,6 +1088,274 @@ def run_offsets(ctx, res, impl, tables, plan):
             res.diverge("sniff", case, impl_s, rep)
 
 
+# ----------------------------------------------------------------------------- (e) histories in one process
+
+HIST_HELPER = str(pathlib.Path(__file__).resolve().parent.parent / "c03_hist.py")
+HIST_SLOTS = ["h0.pkl", "h1.gz", "h2", "h3.z", "h4.xz", "h5.joblib", "h6.bz2"]
+HIST_VALID = [0, 0, 0, 3, True, 1, "zlib", "gzip", "bz2", "lzma", "xz", ("zlib", 1), ("gzip", 9), ("bz2", 1), ("lzma", 3),
+              ("xz", 1), ("zlib", 0)]
+HIST_INVALID = [("foo", 3), 10, ("zlib", "3"), "ZLIB", ("hist9", 1)]
+
+
+def hist_modes(g):
+    from .. import c03_hist as H
+
+    mod = H.GLOBALS[g][0]
+    if mod == H.FMOD:
+        return ["reload", "reimport"]
+    if mod == H.SYN:
+        return ["exec", "setattr", "newmodule"]
+    return ["exec", "setattr"]
+
+
+def hist_spec(rng, depth):
+    from .. import c03_hist as H
+
+    inst = [g for g, x in enumerate(H.GLOBALS) if x[2] in H.INSTANCE_SHAPES]
+    k = rng.randrange(11 if depth > 0 else 5)
+    if k == 0:
+        return ["n"]
+    if k == 1:
+        return ["i", rng.choice([0, 1, -1, 255, 2**31, 2**70, rng.randint(-999, 999)])]
+    if k == 2:
+        return ["s", rng.choice(["", "a", "é", "x" * 300, "line\nbreak"])]
+    if k == 3:
+        return ["glob", rng.randrange(len(H.GLOBALS))]
+    if k == 4:
+        return ["enum", 7, rng.choice(["A", "B"])]
+    if k in (5, 6):
+        return ["inst", rng.choice(inst), hist_spec(rng, depth - 1), hist_spec(rng, depth - 1)]
+    if k == 7:
+        return ["l", [hist_spec(rng, depth - 1) for _ in range(rng.randint(0, 3))]]
+    if k == 8:
+        return ["t", [hist_spec(rng, depth - 1) for _ in range(rng.randint(0, 3))]]
+    if k == 9:
+        return ["d", [[["s", "k%d" % i], hist_spec(rng, depth - 1)] for i in range(rng.randint(0, 3))]]
+    return ["ref", rng.randrange(4)]
+
+
+def hist_top(rng, g, tag, focus=None):
+    payload = hist_spec(rng, 3)
+    if focus is not None:  # make sure the global in focus is mentioned by the file
+        payload = ["l", [payload, ["glob", focus], ["ref", 0]]]
+    return ["inst", g, ["i", tag], payload]
+
+
+def hist_systematic(rng):
+    """For every global and every way of re-binding it: dump, load, RE-BIND, load the old file, dump, load."""
+    from .. import c03_hist as H
+
+    inst = [g for g, x in enumerate(H.GLOBALS) if x[2] in H.INSTANCE_SHAPES]
+    ops, ver = [], 0
+    for g in range(len(H.GLOBALS)):
+        for mode in hist_modes(g):
+            top = g if g in inst else rng.choice(inst)
+            s1, s2 = rng.sample(HIST_SLOTS, 2)
+            ver += 1
+            ops.append(["dump", s1, hist_top(rng, top, len(ops), g), enc(rng.choice(HIST_VALID)), rng.choice([0, 1, 2, 3, 4, 5, None]),
+                        rng.choice(["path", "pathlib", "file", "bytesio"]), "valid"])
+            ops.append(["load", s1, rng.choice(["path", "file", "bytesio"])])
+            ops.append(["rebind", g, mode, ver])
+            ops.append(["load", s1, rng.choice(["path", "file", "bytesio"])])
+            ops.append(["dump", s2, hist_top(rng, top, len(ops), g), enc(rng.choice(HIST_VALID)), rng.choice([0, 1, 2, 3, 4, 5, None]),
+                        rng.choice(["path", "pathlib", "file", "bytesio"]), "valid"])
+            ops.append(["load", s2, rng.choice(["path", "file", "bytesio"])])
+    return ops
+
+
+def hist_systematic_registry(rng):
+    """Registrations between operations: a built-in codec first (whatever is remembered from the first calls is
+    remembered now), a compressor with a magic number LONGER than every built-in one, the same name registered again
+    (force=True) with another magic number / key, a second compressor with a short magic number; then ONE file name
+    rewritten with every compressor in turn, loaded after each rewrite."""
+    from .. import c03_hist as H
+
+    inst = [g for g, x in enumerate(H.GLOBALS) if x[2] in H.INSTANCE_SHAPES]
+    ops = []
+
+    def dl(slot, c):
+        ops.append(["dump", slot, hist_top(rng, rng.choice(inst), len(ops)), enc(c), rng.choice([0, 1, 2, 3, 4, 5, None]),
+                    rng.choice(["path", "pathlib", "file", "bytesio"]) if isinstance(c, (tuple, str)) else rng.choice(["path", "pathlib"]),
+                    "valid"])
+        # a buffered file (peek() hands out its whole read buffer) and an object without peek (read(max_prefix_len))
+        ops.append(["load", slot, rng.choice(["path", "file"])])
+        ops.append(["load", slot, "bytesio"])
+
+    def reg(name, n, key):
+        first = 0xC3 if name == "hist1" else 0xC5
+        ops.append(["reg", name, (bytes([first]) + bytes((29 * key + 5 * i) % 251 for i in range(n - 1))).hex(),
+                    ".h1" if name == "hist1" else ".h2", key])
+
+    dl("h1.gz", 0)
+    dl("h4.xz", ("xz", 1))
+    reg("hist1", 12, 90)
+    dl("h2", ("hist1", 3))
+    dl("h7.h1", 3)
+    ops.append(["load", "h1.gz", "path"])
+    ops.append(["load", "h4.xz", "bytesio"])
+    reg("hist1", 19, 7)
+    dl("h3.z", "hist1")
+    dl("h7.h1", True)
+    reg("hist2", 3, 201)
+    dl("h8.h2", 1)
+    dl("h0.pkl", ("hist2", 1))
+    ops.append(["load", "h3.z", "file"])
+    reg("hist1", 5, 33)
+    dl("h5.joblib", ("hist1", None))
+    ops.append(["load", "h0.pkl", "path"])
+    cycle = [0, "zlib", ("gzip", 3), "hist1", "bz2", ("hist2", 3), ("lzma", 1), "xz", 0, ("hist1", 1), ("zlib", 9)]
+    rng.shuffle(cycle)
+    for c in cycle:
+        ops.append(["dump", "same.pkl", hist_top(rng, rng.choice(inst), len(ops)), enc(c), rng.choice([0, 2, 4, 5, None]),
+                    rng.choice(["path", "pathlib", "file", "bytesio"]), "valid"])
+        ops.append(["load", "same.pkl", "path"])
+        ops.append(["load", "same.pkl", rng.choice(["file", "bytesio"])])
+    return ops
+
+
+def hist_random(rng, n_ops, registry):
+    from .. import c03_hist as H
+
+    inst = [g for g, x in enumerate(H.GLOBALS) if x[2] in H.INSTANCE_SHAPES]
+    ops, ver, written, regs, nreg = [], 0, [], {}, 0
+    slots = list(HIST_SLOTS) + (["h7.h1", "h8.h2"] if registry else [])
+    while len(ops) < n_ops:
+        r = rng.random()
+        if registry and (r < 0.08 or (not regs and r < 0.3)):
+            name = rng.choice(["hist1", "hist2"])
+            nreg += 1
+            first = 0xC3 if name == "hist1" else 0xC5
+            pfx = bytes([first]) + bytes((17 * nreg + 3 * i) % 251 for i in range(rng.choice([2, 6, 11, 19])))
+            regs[name] = True
+            ops.append(["reg", name, pfx.hex(), ".h1" if name == "hist1" else ".h2", rng.randrange(1, 256)])
+        elif r < 0.38 or not written:
+            slot = rng.choice(slots)
+            tk = rng.choice(["path", "pathlib", "file", "bytesio"])
+            pool = list(HIST_VALID) + [(n, 3) for n in regs] + list(regs)
+            if rng.random() < 0.06 and tk != "file":
+                c, ok = rng.choice(HIST_INVALID), "invalid"
+            else:
+                c, ok = rng.choice(pool), "valid"
+            ops.append(["dump", slot, hist_top(rng, rng.choice(inst), len(ops)), enc(c), rng.choice([0, 1, 2, 3, 4, 5, None]), tk, ok])
+            if ok == "valid" and slot not in written:
+                written.append(slot)
+        elif r < 0.78:
+            ops.append(["load", rng.choice(written if rng.random() < 0.95 else slots), rng.choice(["path", "file", "bytesio"])])
+        else:
+            g = rng.randrange(len(H.GLOBALS))
+            ver += 1
+            ops.append(["rebind", g, rng.choice(hist_modes(g)), ver])
+    return ops
+
+
+def history_plan(ctx, salt, scale):
+    rng = ctx.rng("histories" + salt)
+    plan = [dict(kind="history", flavour="bindings", ops=hist_systematic(rng)),
+            dict(kind="history", flavour="registry", ops=hist_systematic_registry(rng))]
+    for _ in range(max(2, int(3 * scale))):
+        plan.append(dict(kind="history", flavour="bindings", ops=hist_random(rng, 60, False)))
+    for _ in range(max(1, int(1.4 * scale))):
+        plan.append(dict(kind="history", flavour="registry", ops=hist_random(rng, 60, True)))
+    return plan
+
+
+def run_history_process(args):
+    scratch, k, ops = args
+    import json
+    import subprocess
+    import sys as _sys
+
+    env = dict(os.environ, PYTHONPATH=str(core.REPO))
+    p = subprocess.run([_sys.executable, HIST_HELPER], input=json.dumps(dict(dir=os.path.join(scratch, f"hist{k}"), ops=ops)),
+                       capture_output=True, text=True, env=env, timeout=600)
+    if p.returncode != 0:
+        raise core.InfraError("c03_hist.py failed: " + p.stderr[-800:])
+    return json.loads(p.stdout)
+
+
+def hist_model_line(ops, recs):
+    """The `hist` request for the driver and the implementation's replies in the model's vocabulary (None: this history
+    holds an operation the model does not speak about)."""
+    from .. import c03_hist as H
+
+    toks, impl = [], []
+    for op, rec in zip(ops, recs):
+        out = rec["out"]
+        if op[0] == "reg":
+            return None, None
+        if out.startswith("skip"):
+            if op[0] == "dump":
+                continue  # CPython's pickle does not take this object under this protocol: the dump was not attempted
+            break
+        if op[0] == "rebind":
+            toks.append(f"r,{op[1]},{op[3]}")
+            impl.append("rebound")
+        elif op[0] == "dump":
+            _, slot, spec, c, proto, tk, _ok = op
+            tt = {"path": "path:" + s_tok(slot), "pathlib": "pathlib:" + s_tok(slot), "file": "file", "bytesio": "bytesio"}[tk]
+            toks.append(f"d,{s_tok(slot)},{arg_token(dec(c))},{tt},{pickle.DEFAULT_PROTOCOL if proto is None else proto},{spec[1]},{spec[2][1]}")
+            impl.append("ok" if out == "ok" else "err:" + out.split()[1])
+        else:
+            toks.append(f"l,{s_tok(op[1])}")
+            if out == "nofile":
+                impl.append("nofile")
+            elif out == "raises":
+                impl.append("raises:" + rec["exc"])
+            else:
+                impl.append(f"loaded:g={rec['g']}:v={rec['ver']}:id={rec['tag']}")
+    return f"hist {len(H.GLOBALS)} " + "|".join(toks), impl
+
+
+def run_histories(ctx, res, plan):
+    import concurrent.futures
+
+    with concurrent.futures.ThreadPoolExecutor(3) as ex:
+        outs = list(ex.map(run_history_process, [(str(ctx.scratch), k, h["ops"]) for k, h in enumerate(plan)]))
+    reqs, pend = [], []
+    for h, recs in zip(plan, outs):
+        ops = h["ops"]
+        res.count("history=" + h["flavour"])
+        since_rebind = None
+        for i, (op, rec) in enumerate(zip(ops, recs)):
+            out = rec["out"]
+            case = dict(kind="history", flavour=h["flavour"], ops=ops[: i + 1])
+            if out in ("harness-error", "bad-op"):
+                raise core.InfraError(f"c03_hist.py: {rec}")
+            res.count("history-op=" + op[0] + ":" + out.split(":")[0].split()[0])
+            if op[0] == "rebind":
+                since_rebind = op[2]
+                res.count("history-rebind=" + op[2])
+            elif op[0] == "dump":
+                res.evaluations += 1
+                if out.startswith("err") and op[6] == "valid":
+                    res.fail("history:dump-raises-on-valid-input:" + out.split()[1], case, rec.get("detail"))
+            elif op[0] == "load" and not out.startswith("skip") and out != "nofile":
+                res.evaluations += 1
+                res.nontrivial.add(("history", repr(ops[: i + 1])))
+                if out == "raises":
+                    res.fail("history:load-raises:" + rec["exc"], case, rec.get("detail"))
+                elif rec["mismatch"]:
+                    res.fail("history:load-differs-from-pickle-at-the-same-instant:" + rec["mismatch"][0]
+                             + (":after-a-rebinding" if since_rebind else ":no-rebinding"), case,
+                             dict(where=rec["mismatch"][1], last_rebind=since_rebind, **rec.get("detail", {})))
+        if len(res.samples) < 6:
+            res.sample(dict(history=h["flavour"], n_ops=len(ops), first_ops=ops[:3]))
+        line, impl = hist_model_line(ops, recs)
+        if line is not None:
+            reqs.append(line)
+            pend.append((h, impl))
+    replies = ctx.driver().run(reqs) if reqs else []
+    for (h, impl), rep in zip(pend, replies):
+        if rep == "bad-op":
+            raise core.InfraError("driver rejected a hist request")
+        model = rep.split("|")
+        for i, (a, b) in enumerate(zip(impl, model)):
+            res.traces_validated += 1
+            if a != b:
+                res.diverge("history", dict(kind="history", flavour=h["flavour"], ops=h["ops"][: i + 1]), a, b)
+                break
+
+
 # ----------------------------------------------------------------------------- tables
 
 
@@ -1088,7 +1376,8 @@ RULE = ("resolve: every (compress-argument form, target) pair of the exhaustive 
         "(name|non-string|unhashable, level) tuples over 14 level values, tuples of length 0/1/3/4; targets: 27 file names "
         "x {str, pathlib.Path}, open file objects, BytesIO, non-files); roundtrip: distinct by (canonical form of the "
         "object incl. identity structure, protocol, compress argument, target kind, file name); an object is used only if "
-        "CPython's own pickle round-trips it under that protocol (that is what 'picklable' means here)")
+        "CPython's own pickle round-trips it under that protocol (that is what 'picklable' means here); histories: every "
+        "load of a history is one evaluation, distinct by the sequence of operations before it")
 
 
 def _explore(ctx, scale, salt):
@@ -1102,6 +1391,7 @@ def _explore(ctx, scale, salt):
     run_detect_synthetic(ctx, res, impl, tables)
     run_roundtrips(ctx, res, impl, tables, roundtrip_plan(ctx, tables, salt, scale))
     run_offsets(ctx, res, impl, tables, offset_plan(ctx, tables, salt, scale))
+    run_histories(ctx, res, history_plan(ctx, salt, scale))
     res.assumptions = ["single writer per file; targets are regular files / BytesIO", "lz4 package absent"]
     return res
 
@@ -1126,6 +1416,8 @@ def run(ctx):
             run_offsets(ctx, res, impl, tables, [case])
         elif case.get("kind") == "resolve":
             run_resolve(ctx, res, impl, tables, [(dec(case["compress"]), case["target"], case["name"])])
+        elif case.get("kind") == "history":
+            run_histories(ctx, res, [case])
         else:
             run_detect_synthetic(ctx, res, impl, tables)
         return res
